@@ -23,7 +23,7 @@ pub fn prop() -> Prop {
     .random(
         "texts",
         check,
-        |t| if t == Tier::Quick { 300_000 } else { 4_000_000 },
+        |t| if t == Tier::Quick { 600_000 } else { 6_000_000 },
         |t| if t == Tier::Quick { 300 } else { 700 },
     )
     .text(check_plain_text)
